@@ -17,7 +17,7 @@ ID = "C13"
 LEVEL = "exploration"
 TIERS = {
   "quick": {"runs": 96, "chunk": 6, "budget_s": 420, "timeout_s": 300},
-  "thorough": {"runs": 1600, "chunk": 10, "budget_s": 3000, "timeout_s": 300},
+  "thorough": {"runs": 384, "chunk": 8, "budget_s": 1500, "timeout_s": 300},
 }
 RULE = ("one evaluation = one (world, oracle clause) comparison after a reset_data call placed at a seeded point of a seeded "
         "multi-world history; masks cover None / all / none / singletons / world-0-only / all-but-0 / random, bool and int dtypes, "
